@@ -93,4 +93,8 @@ def _get_saved_where_filter(zdir: PathLike, query_name: str) -> Optional[str]:
         where_filter = where_filter.replace(
             f"{{{sub_query_name}}}", sub_where_filter
         )
+    # A saved filter with alternatives (e.g. 'o | x') must stay a unit when it
+    # gets pasted into some other filter.
+    if " | " in where_filter:
+        where_filter = f"({where_filter})"
     return where_filter
